@@ -285,7 +285,7 @@ func (t *GoText) Append(s string) { *t += GoText(s) }
 // scriptValues: source text of script-side argument values
 var goconvValues = []string{
 	"nil", "true", "false", "0", "1", "-1", "127", "128", "300", "65", "233", "2147483648", "-9223372036854775807", "1.5", "-2.0", "1e10",
-	`""`, `"a"`, `"ab"`, `"7"`, "[]", "[1, 2]", "[1, 300, -1]", `["a", "b"]`, `[1, "a"]`, "[nil, 1]", "[[1], [2, 3]]", "[1.5, 2]", "[true]",
+	`""`, `"a"`, `"ab"`, `"7"`, `"é"`, `"€"`, `"日本"`, `["a", "é"]`, `["€"]`, `{"a": "é"}`, "[]", "[1, 2]", "[1, 300, -1]", `["a", "b"]`, `[1, "a"]`, "[nil, 1]", "[[1], [2, 3]]", "[1.5, 2]", "[true]",
 	"{}", `{"a": 1}`, `{"a": 1, "b": 300}`, `{"a": "x"}`, `{1: 2}`, `{"a": nil}`, `{"a": [1]}`,
 	"func(x) { return x }",
 }
@@ -293,7 +293,7 @@ var goconvValues = []string{
 var goconvTypes = []reflect.Type{
 	reflect.TypeOf(int64(0)), reflect.TypeOf(int32(0)), reflect.TypeOf(int8(0)), reflect.TypeOf(uint8(0)), reflect.TypeOf(int(0)), reflect.TypeOf(uint16(0)),
 	reflect.TypeOf(float64(0)), reflect.TypeOf(float32(0)), reflect.TypeOf(""), reflect.TypeOf(true), ifaceT,
-	reflect.TypeOf([]int64{}), reflect.TypeOf([]int8{}), reflect.TypeOf([]string{}), reflect.TypeOf([]interface{}{}), reflect.TypeOf([]byte{}), reflect.TypeOf([]bool{}),
+	reflect.TypeOf([]int64{}), reflect.TypeOf([]int8{}), reflect.TypeOf([]string{}), reflect.TypeOf([]interface{}{}), reflect.TypeOf([]byte{}), reflect.TypeOf([]rune{}), reflect.TypeOf(map[string]byte{}), reflect.TypeOf([]bool{}),
 	reflect.TypeOf([][]int64{}), reflect.TypeOf([]float64{}),
 	reflect.TypeOf(map[string]int64{}), reflect.TypeOf(map[string]interface{}{}), reflect.TypeOf(map[interface{}]interface{}{}), reflect.TypeOf(map[string]int8{}),
 	reflect.TypeOf(map[int64]int64{}), reflect.TypeOf(map[string][]int64{}),
@@ -637,6 +637,11 @@ func streamGoConv(o *Out, r *rand.Rand, n int, thorough bool) {
 		{"result-float-to-int", func(f func() int64) int64 { return f() }, "cb(func() { return 2.0 })", "int64:2"},
 		{"no-result-wanted", func(f func(int64)) int64 { f(1); return 3 }, "cb(func(a) { return a })", "int64:3"},
 		{"two-results", func(f func() (int64, string)) string { a, b := f(); return fmt.Sprintf("%d|%s", a, b) }, "cb(func() { return 1, \"x\" })", "string:" + hexOf("1|x")},
+		{"two-results-from-element", func(f func() (int64, string)) string { a, b := f(); return fmt.Sprintf("%d|%s", a, b) }, "p = [[1, \"x\"]]\ncb(func() { return p[0] })", "string:" + hexOf("1|x")},
+		{"two-results-from-variable", func(f func() (int64, string)) string { a, b := f(); return fmt.Sprintf("%d|%s", a, b) }, "q = [1, \"x\"]\ncb(func() { return q })", "string:" + hexOf("1|x")},
+		{"two-results-from-go-identity", func(f func() (int64, string)) string { a, b := f(); return fmt.Sprintf("%d|%s", a, b) }, "cb(func() { return id([1, \"x\"]) })", "string:" + hexOf("1|x")},
+		{"two-results-from-map-entry", func(f func() (int64, string)) string { a, b := f(); return fmt.Sprintf("%d|%s", a, b) }, "m = {\"k\": [1, \"x\"]}\ncb(func() { return m.k })", "string:" + hexOf("1|x")},
+		{"one-result-from-element", func(f func() int64) int64 { return f() }, "p = [4]\ncb(func() { return p[0] })", "int64:4"},
 		{"error-inside", func(f func() int64) int64 { return f() }, "cb(func() { throw \"inner\" })", "ERROR"},
 		{"result-not-convertible", func(f func() int64) int64 { return f() }, "cb(func() { return [1] })", "ERROR"},
 		{"too-few-results", func(f func() (int64, string)) int64 { a, _ := f(); return a }, "cb(func() { return 1 })", "ERROR"},
@@ -646,6 +651,7 @@ func streamGoConv(o *Out, r *rand.Rand, n int, thorough bool) {
 	for _, c := range cbs {
 		e := env.NewEnv()
 		_ = e.Define("cb", c.fn)
+		_ = e.Define("id", func(a interface{}) interface{} { return a })
 		res, err, p := execGuard(e, c.src)
 		o.Sum.Evaluations++
 		o.Sum.Hist["callback"]++
